@@ -1,6 +1,136 @@
+(* C13 — Stored config round-trips; identity survives resets, migration, failed saves.
+   Property theorems only: each is closed by `exact` of a lemma proved in C13/Proofs.v.
+   Model (C13/Model.v): supla_esp_cfg_save, _supla_esp_save_state, factory_defaults, supla_esp_cfg_init, the commit block of
+   supla_esp_recv_callback, on two byte-accurate flash sectors whose erase/write may return OK / ERR / TIMEOUT (any code) or
+   lose power, driven by an arbitrary fault script (fields failc/failcode/crashc of the state: the theorems quantify over them).
+   chk = true is the code with the proposed repair (result of the erase checked), chk = false the code as it is. *)
 From Coq Require Import List ZArith.
 Import ListNotations.
 From V Require Import Base.Bytes Gen.C13Layout C13.Model C13.Proofs.
 Local Open Scope Z_scope.
-Theorem C13_placeholder : True. Proof. exact placeholder. Qed.
-Print Assumptions C13_placeholder.
+
+(* What the device saves is what it loads: for every accepted record and every state, after any number of
+   save-config / save-state / restart cycles without faults, RAM and both sectors hold exactly the saved bytes. *)
+Theorem C13_roundtrip : forall chk seeds s,
+  quiet s -> valid_img (cfg s) -> len (sta s) = STATE_SIZE -> cells_ok (sta s) ->
+  cfg (cycles chk seeds s) = cfg s /\ sta (cycles chk seeds s) = sta s /\
+  (seeds <> [] -> take CFG_SIZE (fc (cycles chk seeds s)) = cfg s /\ take STATE_SIZE (fs (cycles chk seeds s)) = sta s).
+Proof. exact C13_roundtrip_thm. Qed.
+Print Assumptions C13_roundtrip.
+
+(* The configuration page replaces the RAM configuration by the submitted one iff the save returned 1 (which, by
+   save_sector, requires the write to return OK); with the repair the sector then holds exactly the submitted record. *)
+Theorem C13_commit_only_on_success : forall chk image s, down s = false ->
+  let '(s1, o, r) := do_post chk image s in
+  (r = true -> cfg s1 = merge_undef (cfg s) image) /\ (r = false -> cfg s1 = cfg s) /\
+  sta s1 = sta s /\ fs s1 = fs s /\
+  (chk = true -> r = true -> fc s1 = band_list (fill SEC_SIZE 255) (merge_undef (cfg s) image) /\ down s1 = false).
+Proof. exact C13_commit_thm. Qed.
+Print Assumptions C13_commit_only_on_success.
+
+(* factory_defaults keeps GUID, AuthKey (and TAG) under every fault script, and the reset record is what the device boots into. *)
+Theorem C13_reset_keeps_identity : forall chk sv s, len (cfg s) = CFG_SIZE ->
+  let '(s1, o) := factory chk sv s in
+  cfg s1 = fd (cfg s) /\ sta s1 = fill STATE_SIZE 0 /\ kept (cfg s1) (cfg s) ID_FIELDS.
+Proof. exact C13_reset_thm. Qed.
+Print Assumptions C13_reset_keeps_identity.
+Theorem C13_reset_survives_restart : forall chk r0 s, quiet s -> valid_img (cfg s) ->
+  let '(s1, _) := factory chk 1 s in
+  let '(s2, _, r) := do_init chk r0 s1 in
+  cfg s2 = fd (cfg s) /\ kept (cfg s2) (cfg s) ID_FIELDS /\ sta s2 = fill STATE_SIZE 0 /\ r = 1.
+Proof. exact C13_reset_reboot_thm. Qed.
+Print Assumptions C13_reset_survives_restart.
+
+(* Migration v6 -> v7 and v5A/v5B -> v6 -> v7, under every fault script of the boot (the RAM record does not depend on the
+   migration's own saves): GUID, AuthKey, server, Wi-Fi, e-mail, the first two timing values (FIELDS6 / FIELDS5) are the bytes
+   of the old record at the old offsets. *)
+Theorem C13_migration_keeps_v6 : forall chk r0 s c, len (fc s) = SEC_SIZE -> take CFG_SIZE (fc s) = c ->
+  slice c 0 5 = TAG5 -> nthz c 5 = 6 ->
+  slice c O6_GUID GUID_SIZE <> zeroG -> slice c O6_AUTHKEY AUTHKEY_SIZE <> zeroK ->
+  let '(s', o, r) := do_init chk r0 s in
+  r = 1 /\ kept (cfg s') c FIELDS6 /\ slice (cfg s') O7_TAG TAG_SIZE = TAG7.
+Proof. exact C13_migration_v6_thm. Qed.
+Print Assumptions C13_migration_keeps_v6.
+Theorem C13_migration_keeps_v5 : forall chk r0 s c a, len (fc s) = SEC_SIZE -> take CFG_SIZE (fc s) = c ->
+  slice c 0 5 = TAG5 -> nthz c 5 = 5 -> isA c = Some a ->
+  slice c O5B_GUID GUID_SIZE <> zeroG -> slice c (if a then O5A_AUTHKEY else O5B_AUTHKEY) AUTHKEY_SIZE <> zeroK ->
+  let '(s', o, r) := do_init chk r0 s in
+  r = 1 /\ kept (cfg s') c (FIELDS5 a) /\ slice (cfg s') O7_TAG TAG_SIZE = TAG7.
+Proof. exact C13_migration_v5_thm. Qed.
+Print Assumptions C13_migration_keeps_v5.
+(* which v5 layout is assumed *)
+Theorem C13_v5_layout_B : forall c, slice c O5B_AUTHKEY AUTHKEY_SIZE <> zeroK -> isA c <> None ->
+  strchr (drop O5B_EMAIL c) 64 = Some true -> strchr (drop O5B_EMAIL c) 46 = Some true -> isA c = Some false.
+Proof. exact isA_genuine_B. Qed.
+Print Assumptions C13_v5_layout_B.
+(* observations about the migrations that the property does not forbid (see the report) *)
+Theorem C13_observation_v5_time2_lost : forall a c, len c = CFG_SIZE ->
+  slice (mig67z (mig56 a c)) O7_TIME2 TIME2_BYTES = fill TIME2_BYTES 0 /\ slice (mig67z (mig56 a c)) O7_TRIGGER 1 = [0].
+Proof. exact mig57_time2_lost. Qed.
+Print Assumptions C13_observation_v5_time2_lost.
+Theorem C13_observation_v6_uninitialised : forall c, len c = CFG_SIZE ->
+  slice (mig67z c) V6_SIZE (O7_ZERO - V6_SIZE) = fill (O7_ZERO - V6_SIZE) UNDEF.
+Proof. exact mig67z_undef. Qed.
+Print Assumptions C13_observation_v6_uninitialised.
+
+(* A blank / foreign sector, an unknown layout version, or a record (v7, v6, v5) whose GUID *or* AuthKey is all zero is never
+   accepted: whatever the fault script, the boot ends with the factory-default record carrying the current TAG and an identity
+   that is a function of the generator inputs only (fresh_img mentions nothing of the sector), and an all-zero state. *)
+Theorem C13_reject_foreign : forall chk r0 s c, len (fc s) = SEC_SIZE -> take CFG_SIZE (fc s) = c -> rejected c ->
+  let '(s', o, r) := do_init chk r0 s in
+  cfg s' = fresh_img (en s) r0 /\ sta s' = fill STATE_SIZE 0.
+Proof. exact C13_reject_thm. Qed.
+Print Assumptions C13_reject_foreign.
+Theorem C13_blank_is_rejected : rejected (take CFG_SIZE (fill SEC_SIZE 255)).
+Proof. exact blank_rejected. Qed.
+Print Assumptions C13_blank_is_rejected.
+
+(* Repaired code, any sector (false = configuration, true = state), any failure code, any crash point: after a save the
+   sector is the old one, erased, or exactly the new record; RAM and the other sector are untouched; success => new record. *)
+Theorem C13_crash_atomicity : forall w img s, down s = false ->
+  let '(s1, o, r) := save_sector true w img s in
+  (sector w s1 = sector w s \/ sector w s1 = fill SEC_SIZE 255 \/ sector w s1 = band_list (fill SEC_SIZE 255) img) /\
+  sector (negb w) s1 = sector (negb w) s /\ cfg s1 = cfg s /\ sta s1 = sta s /\
+  (r = true -> sector w s1 = band_list (fill SEC_SIZE 255) img).
+Proof. exact C13_atomicity_thm. Qed.
+Print Assumptions C13_crash_atomicity.
+Theorem C13_crash_atomicity_next_boot : forall img s r0, down s = false -> len (fc s) = SEC_SIZE ->
+  valid_img (take CFG_SIZE (fc s)) -> valid_img img ->
+  let '(s1, _, _) := save_cfg true img s in
+  let '(s2, _, _) := do_init true r0 s1 in
+  cfg s2 = take CFG_SIZE (fc s) \/ cfg s2 = img \/ (cfg s2 = fresh_img (en s) r0 /\ sta s2 = fill STATE_SIZE 0).
+Proof. exact C13_atomicity_boot_thm. Qed.
+Print Assumptions C13_crash_atomicity_next_boot.
+Theorem C13_crash_atomicity_state_next_boot : forall stt s r0, down s = false -> valid_img (take CFG_SIZE (fc s)) ->
+  len stt = STATE_SIZE -> cells_ok stt ->
+  let '(s1, _, _) := save_sector true true stt s in
+  let '(s2, _, _) := do_init true r0 s1 in
+  cfg s2 = take CFG_SIZE (fc s) /\
+  (sta s2 = take STATE_SIZE (fs s) \/ sta s2 = fill STATE_SIZE 255 \/ sta s2 = stt).
+Proof. exact C13_atomicity_state_boot_thm. Qed.
+Print Assumptions C13_crash_atomicity_state_next_boot.
+
+(* The code as it is (erase result ignored) violates round trip and atomicity: with the erase returning TIMEOUT the save of
+   record 240 reports success, the sector holds the AND of old and new, and the next boot accepts that mix. *)
+Theorem C13_old_code_refuted :
+  (let '(s1, _, r) := save_cfg false (cfg wit_st) wit_st in
+   r = true /\ take CFG_SIZE (fc s1) <> wit_img 240 /\ take CFG_SIZE (fc s1) <> wit_img 15 /\
+   let '(s2, _, _) := do_init false 0 s1 in cfg s2 = wit_img 0) /\
+  (let '(s1, _, r) := save_cfg true (cfg wit_st) wit_st in r = false /\ take CFG_SIZE (fc s1) = wit_img 15) /\
+  accept (wit_img 240) = true /\ accept (wit_img 15) = true.
+Proof. exact C13_old_code_refuted_thm. Qed.
+Print Assumptions C13_old_code_refuted.
+
+(* non-vacuity: the hypotheses are satisfiable (a valid record, a quiet machine holding it), a first boot on blank flash
+   stores a record that the next boot accepts, and a v6 record exists that meets the migration hypotheses *)
+Example C13_nonvacuous :
+  valid_img (wit_img 15) /\ quiet (upd_ram init_st (wit_img 15) (fill STATE_SIZE 7) false) /\
+  (let '(s1, _, r1) := do_init true 0 init_st in
+   let '(s2, _, r2) := do_init true 9 s1 in
+   r1 = 1 /\ r2 = 1 /\ cfg s2 = cfg s1 /\ cfg s1 = fresh_img (en init_st) 0 /\ accept (cfg s1) = true) /\
+  (let c := blit (wit_img 15) 5 [6] in slice c 0 5 = TAG5 /\ nthz c 5 = 6 /\ slice c O6_GUID GUID_SIZE <> zeroG /\ slice c O6_AUTHKEY AUTHKEY_SIZE <> zeroK).
+Proof.
+  split; [apply wit_valid; left; reflexivity|]. split; [repeat split|].
+  split; vm_compute; repeat split; try reflexivity; discriminate.
+Qed.
+Print Assumptions C13_nonvacuous.
